@@ -31,7 +31,7 @@ let float_of_dec (d : dec) : float =
   let e = int_of_z d.d_exp in
   float_of_string (Printf.sprintf "%s%se%d" (if d.d_neg then "-" else "") ds e)
 
-let reg_str = function RegNone -> "none" | Reg (b, e) -> Printf.sprintf "%d:%d" (int_of_nat b) (int_of_nat e) | RegAnomaly -> "anomaly"
+let reg_str = function RegNone -> "none" | Reg (b, e) -> Printf.sprintf "%d:%d" (int_of_nat b) (int_of_nat e)
 
 let kind_of (s : string) : kind =
   match s.[0] with
@@ -57,7 +57,6 @@ let value_str = function
 let presult_str = function
   | PAccept vs -> "accept " ^ String.concat " " (List.map value_str vs)
   | PReject -> "reject"
-  | PAnomaly -> "anomaly"
   | POutOfFuel -> "outoffuel"
 
 let () =
